@@ -107,18 +107,24 @@ Proof. exact batch_once. Qed.
 
 (* The decision procedure that is evaluated on the implementation's observations, evaluated on the model's own
    observation, for EVERY scenario of the quantifier (any ops, sizes >= 1, distinct events, any script incl. whole-request
-   errors and late responses, clean or abrupt Shutdown): the ONLY failing clauses are clause 6 / detail 1, one per
-   request that was still in the pending batch when Shutdown ran.  Hence a failing clause 1-5, 7 on the implementation
-   is a violation of the property by the implementation and never an artefact of the model. *)
+   errors and late responses, clean or abrupt Shutdown, requests held in flight or not): the ONLY failing clauses are
+   clause 6 / detail 1, one per request that was still in the pending batch when Shutdown ran, and - when the scenario
+   holds the bulk requests in flight until Shutdown has returned - clause 6 / detail 2, one per request already handed
+   to a bulk goroutine.  Hence a failing clause 1-5, 7 on the implementation is a violation of the property by the
+   implementation and never an artefact of the model. *)
 Theorem C14_spec_model : forall i,
   in_domain14 i = true ->
   spec_c14 i (model_eobs i)
-  = map (fun d => clause 14 6 [L 1; L (d_id d)]) (e_dropped (es_run (ei_cfg i) (ei_script i) (ei_ops i) (ei_clean i))).
+  = map (fun d => clause 14 6 [L 1; L (d_id d)]) (e_dropped (es_run (ei_cfg i) (ei_script i) (ei_ops i) (ei_clean i)))
+    ++ (if ei_gate i
+        then map (fun d => clause 14 6 [L 2; L (d_id d)])
+                 (concat (b_batches (bfinish (ei_cfg i) (ei_clean i) (brun (ei_cfg i) (ei_ops i)))))
+        else []).
 Proof. exact spec_c14_model. Qed.
 
 (* with a clean Shutdown (arrivals paused first) every clause holds *)
 Theorem C14_spec_sound_clean : forall i,
-  in_domain14 i = true -> ei_clean i = true -> spec_c14 i (model_eobs i) = [].
+  in_domain14 i = true -> ei_clean i = true -> ei_gate i = false -> spec_c14 i (model_eobs i) = [].
 Proof. exact spec_c14_sound_clean. Qed.
 
 (* the closed form the decision procedure uses for "still pending at Shutdown" is the batcher's pending batch *)
@@ -135,7 +141,11 @@ Definition C14_full_statement : Prop :=
 Definition shutdown_witness : einput :=
   {| ei_cfg := {| batch_size := 3; max_retries := 1; workers := 1 |};
      ei_ops := map (fun k => OpDoc {| d_id := k; d_idx := 0; d_hasid := 1; d_body := k |}) [0; 1; 2; 3];
-     ei_script := []; ei_clean := false |}.
+     ei_script := []; ei_clean := false; ei_gate := false |}.
+
+(* the same arrivals, Elasticsearch slow: Shutdown returns while the first bulk request is in flight *)
+Definition inflight_witness : einput :=
+  {| ei_cfg := ei_cfg shutdown_witness; ei_ops := ei_ops shutdown_witness; ei_script := []; ei_clean := false; ei_gate := true |}.
 
 (* Shutdown with a pending batch: request 3 is never sent and never answered (clause 6, detail 1) *)
 Theorem C14_shutdown_refuted :
@@ -143,6 +153,15 @@ Theorem C14_shutdown_refuted :
   /\ spec_c14 shutdown_witness (model_eobs shutdown_witness) = [clause 14 6 [L 1; L 3]]
   /\ e_dropped (es_run (ei_cfg shutdown_witness) [] (ei_ops shutdown_witness) false)
      = [{| d_id := 3; d_idx := 0; d_hasid := 1; d_body := 3 |}].
+Proof. vm_compute. repeat split; reflexivity. Qed.
+
+(* Shutdown with a bulk request in flight: requests 0,1,2 have no answer when Shutdown returns (clause 6, detail 2);
+   they are answered later only if the process happens to live on *)
+Theorem C14_shutdown_inflight_refuted :
+  in_domain14 inflight_witness = true
+  /\ spec_c14 inflight_witness (model_eobs inflight_witness)
+     = [clause 14 6 [L 1; L 3]; clause 14 6 [L 2; L 0]; clause 14 6 [L 2; L 1]; clause 14 6 [L 2; L 2]]
+  /\ eo_at_shutdown (model_eobs inflight_witness) = [].
 Proof. vm_compute. repeat split; reflexivity. Qed.
 
 Theorem C14_full_statement_refuted : ~ C14_full_statement.
@@ -159,7 +178,7 @@ Example C14_scenario_example :
               ei_ops := [OpDoc (d 0); OpDoc (d 1); OpBad 9; OpDoc (d 2); OpPause; OpDoc (d 3)];
               ei_script := [(0, [(ORetry, false); (OOk, true)]); (1, [(OMapping, false)]);
                             (2, [(ORetry, false); (ONoErr, false)])];
-              ei_clean := true |} in
+              ei_clean := true; ei_gate := false |} in
   in_domain14 i = true /\ no_whole (ei_script i) = true /\ spec_c14 i (model_eobs i) = []
   /\ map (fun id => answers_of id (e_answers (es_run (ei_cfg i) (ei_script i) (ei_ops i) true))) [0; 1; 9; 2; 3]
      = [[ASuccess]; [AIndexErr 0 2]; [AOther]; [AIndexErr (-1) 3]; [ASuccess]]
@@ -202,4 +221,5 @@ Print Assumptions C14_spec_model.
 Print Assumptions C14_spec_sound_clean.
 Print Assumptions C14_pending_closed_form.
 Print Assumptions C14_shutdown_refuted.
+Print Assumptions C14_shutdown_inflight_refuted.
 Print Assumptions C14_full_statement_refuted.
